@@ -97,6 +97,11 @@ func run(c dspace.Case, w *enum.Worker, nh int) {
 		return
 	}
 	for i := 0; i < n; i++ {
+		// a packet of thousands of tiny layers (an input extended by filler bytes): each write
+		// decodes the packet anew, which is quadratic; the first 24 and the last 8 layers are written
+		if n > 32 && i >= 24 && i < n-8 {
+			continue
+		}
 		sl0, _ := layerAt(c, i)
 		if sl0 == nil {
 			continue
